@@ -53,7 +53,10 @@ FIELDS = [("{x}", ()), ("{x!r}", ()), ("{x!s}", ()), ("{x!a}", ()), ("{ x }", ()
           ("{x:{w}}", ("spec", "nested-spec")), ("{x:{w}.{p}}", ("spec", "nested-spec")), ("{x!s:^{w}}", ("spec", "nested-spec")), ("{x:a{y}b}", ("spec", "nested-spec")),
           ("{x:=^10}", ("spec", "spec-starts-with-op")), ("{x:->5}", ("spec", "spec-starts-with-op")), ("{x:**^9}", ("spec", "spec-starts-with-op")), ("{x:>>5}", ("spec", "spec-starts-with-op")),
           ("{x:{{}}", ("spec", "doubled-brace")), ("{x:\\n}", ("spec", "escape")), ("{'s'}", ("inner-quote",)), ('{"s"}', ("inner-quote",)), ("{d['k']}", ("inner-quote",)),
-          ("{f'{y}'}", ("inner-quote", "nested-fstring")), ('{f"{y!r:>3}"}', ("inner-quote", "nested-fstring", "spec")), ("{$HOME}", ("xonsh",)), ("{$(ls)}", ("xonsh",)), ("{@(x)}", ("xonsh",))]
+          ("{f'{y}'}", ("inner-quote", "nested-fstring")), ('{f"{y!r:>3}"}', ("inner-quote", "nested-fstring", "spec")), ("{$HOME}", ("xonsh",)), ("{$(ls)}", ("xonsh",)), ("{@(x)}", ("xonsh",)),
+          # strings INSIDE a replacement field are literals of their own: evaluated once, by their own prefix (never again by the outer f-string)
+          ('{r"\\n"}', ("inner-quote",)), ('{"\\\\n"}', ("inner-quote",)), ('{s.replace("\\\\n", " ")}', ("inner-quote",)), ('{f"a\\\\nb{y}"}', ("inner-quote", "nested-fstring")),
+          ('{rf"\\t{y}"}', ("inner-quote", "nested-fstring")), ('{x:{f"\\\\x41"}}', ("inner-quote", "nested-fstring", "spec")), ('{re.search(r"\\bfoo\\b", s)!r:>{w}}', ("inner-quote", "spec"))]
 
 
 def site_of(tags) -> str:
@@ -241,6 +244,22 @@ def action_obligations(rep: Report):
     else:
         rep.fail("C10.builder.handle_fstring", "structural", "Parser.handle_fstring returns JoinedStr(values=<the parts it was given>, <the rule's span>)", "syntactic",
                  f"return expressions: {rets}", witness=rets)
+    # escape decoding touches the f-string's own literal text (and its format specs) only: never the expression inside a replacement field
+    fnd = next((n for c in ast.walk(tree) if isinstance(c, ast.ClassDef) and c.name == "Parser" for n in c.body if isinstance(n, ast.FunctionDef) and n.name == "_decode_fstring_parts"), None)
+    if fnd is not None:
+        param = fnd.args.args[1].arg if len(fnd.args.args) > 1 else None
+        loops = [n for n in ast.walk(fnd) if isinstance(n, ast.For)]
+        walks = [ast.unparse(n)[:60] for n in ast.walk(fnd) if isinstance(n, ast.Call) and ast.unparse(n.func) in ("ast.walk", "ast.iter_child_nodes", "ast.iter_fields")]
+        recs = [ast.unparse(n.args[0]) for n in ast.walk(fnd) if isinstance(n, ast.Call) and isinstance(n.func, ast.Attribute) and n.func.attr == "_decode_fstring_parts" and n.args]
+        lv = loops[0].target.id if len(loops) == 1 and isinstance(loops[0].target, ast.Name) else None
+        ok = (len(loops) == 1 and ast.unparse(loops[0].iter) == param and not walks and recs == [f"{lv}.format_spec.values"])
+        desc = ("Parser._decode_fstring_parts visits exactly the parts it was given and recurses only into a part's format_spec.values: a string inside a replacement "
+                "field (evaluated by its own prefix) is never decoded again")
+        if ok:
+            rep.ok("C10.builder.decode_scope", "structural", desc, "syntactic", function="peg_parser/subheader.py:Parser._decode_fstring_parts")
+        else:
+            rep.fail("C10.builder.decode_scope", "structural", desc, "syntactic", f"loops over {[ast.unparse(l.iter) for l in loops]}; generic walks {walks}; recursive calls on {recs}",
+                     witness={"walks": walks, "recursion": recs}, function="peg_parser/subheader.py:Parser._decode_fstring_parts")
     # reachability: fstring only through strings
     from checks.c14 import walk_pe
     who = sorted({n for n, r in ir.rules.items() for a in r.alts for it in a.items if it.pe is not None for p in walk_pe(it.pe) if p.kind == "rule" and p.arg == "fstring"})
